@@ -23,7 +23,7 @@ def site_class(ctx: Ctx, site) -> str:
     if all(s.passthrough for s in site.subscriptions) and site.subscriptions:
         return "cast"
     short = site.short
-    rel = site.module.relpath
+    rel = site.anchor_rel
     if rel == "rxsci/operators/multiplex.py" and short.startswith("mux_observable."):
         return "root"
     if rel == "rxsci/operators/multiplex.py" and short.startswith("demux_mux_observable."):
@@ -35,8 +35,8 @@ def site_class(ctx: Ctx, site) -> str:
     specs = site.handler_specs("on_next")
     if not specs:
         raise AnalysisError("%s: mux site %s has no on_next handler" % (site.where(), site.name))
-    if any(sp.bound for sp in specs):
-        return "join"
+    if any(v[0] != "obs" for sp in specs for v in sp.bound.values()):
+        return "join"       # a handler shared by several subscriptions, told apart by a bound branch index
     if is_grouping(site):
         return "grouping"
     return "flat"
@@ -90,7 +90,7 @@ def _check_path(r, site, cls, spec, kind, cfg, p):
     down_or_outer = [m for m in ems if m.role in ("down", "outer")]
     grouping = cls == "grouping"
     lifecycle_role = "outer" if grouping else "down"
-    is_err_handler = site.module.relpath.startswith(ERROR_HANDLER_DIR)
+    is_err_handler = site.anchor_rel.startswith(ERROR_HANDLER_DIR)
 
     def bad(msg, node=None, extra=None):
         return lambda: mk_finding("MX-%s" % {"Create": 1, "Completed": 2, "Next": 3}.get(kind, 4), spec, kind, cfg, p, msg,
@@ -490,6 +490,17 @@ def rule_wc2(ctx: Ctx) -> RuleResult:
             qn = m.scopes[fn].qualname if fn is not None else "<module>"
             table = allowed_err if last == "OnErrorMux" else allowed_life
             ok = any(qn.startswith(pfx) for pfx in table.get(rel, ()))
+            if not ok and fn is not None:
+                # a helper shared by several operators (mux_error(event, e)): every site that reaches it must be
+                # one of the allowed originators
+                from .common import reached_by_site
+                chain = []
+                f = fn
+                while f is not None:
+                    chain.append(f)
+                    f = m.enclosing_function(f)
+                owners = [s_ for s_, fns in reached_by_site(ctx, mux_only=True).items() if any(f in fns for f in chain)]
+                ok = bool(owners) and all(any((s_.short + ".").startswith(pfx) for pfx in table.get(s_.anchor_rel, ())) for s_ in owners)
             r.instances += 1
             r.ob(ok, lambda: Finding("WC-2", "%s::%s{%s}" % (rel, qn, last), m.where(node),
                                      "%s is constructed outside the operators allowed to originate it; the protocol argument "
